@@ -361,7 +361,9 @@ Definition handle200Ok (x : xs) : res :=
   stopBackup (with_sending SAdapted (with_parsing PsHttpHeader x)) >>= fun x => Ok (checkConsuming x).
 Definition handle204NoContent (x : xs) : res := stopParsing true x >>= prepEchoing.
 Definition handle206PartialContent (x : xs) : res := Throw x.   (* Must(state.allowedPreview206) / Must(state.allowedPostview206) *)
-Definition handleUnknownScode (x : xs) : res := stopParsing false x >>= stopBackup >>= fun x => Throw x.
+(* as repaired by /repo 0ccad7c: the backup is kept while the failure may still be bypassed *)
+Definition handleUnknownScode (x : xs) : res :=
+  stopParsing false x >>= (fun x => if can_bypass (fl x) then Ok x else stopBackup x) >>= fun x => Throw x.
 
 (* ModXact::parseIcapHead; the status dispatch is the table regenerated from the switch in the source *)
 Definition parseIcapHead (x : xs) : res :=
